@@ -13,6 +13,9 @@ table() {
     C06) echo "qbftsim exploration 1200 200 40000 1800";;
     C07) echo "qbftsim exploration 1200 170 40000 1800";;
     C17) echo "qbftsim exploration 6000 150 200000 1200";;
+    C11) echo "regsim exploration 1600 150 40000 1500";;
+    C12) echo "regsim fault_enumeration 320 150 8000 1500";;
+    C16) echo "dutysim exploration 30000 150 500000 1500";;
     C14) echo "queuesim exploration 40000 120 1500000 1200";;
     C13) echo "elsim exploration 20000 120 400000 1200";;
     *) return 1;;
